@@ -157,6 +157,27 @@ def run(ctx):
                  'run_in_place can return Ok without calling any kernel of %s while every Ok path of run calls one: for that case in-place execution returns the input unchanged where normal execution transforms it' % mod.rstrip(':'), fi.loc())
     ctx.floor(R, 'in-place operators whose work is in module-local kernels', nk, 40)
 
+    # ---- run_in_place falling back to the operator's own run: the rebuilt input list keeps input positions (optional
+    # inputs may be absent: a `flatten()` over the remaining inputs drops their placeholders and shifts later inputs)
+    R = 'C13.fallback'
+    nfb = 0
+    for o in ops:
+        if not o.overridden('run_in_place'):
+            continue
+        fi = fb.fn(o.path('run_in_place'))
+        if fi is None or not fi.has_mir():
+            continue
+        self_run = [c for c in fi.calls() if c.callee == o.path('run')]
+        if not self_run:
+            continue
+        nfb += 1
+        flat = [c for c in fi.calls() if re.search(r'Iterator::(flatten|filter_map|flat_map)$|Iterator::filter$', c.callee or '')]
+        pos = [c for c in fi.calls() if re.search(r'InputList::<.a>::from_optional$', c.callee or '')]
+        ok = not flat and bool(pos)
+        ctx.inst(R, 'positional-inputs:' + o.short, ok, 'the fallback to run rebuilds the inputs with InputList::from_optional and no dropping adaptor' if ok else
+                 'the fallback to run rebuilds the input list through %s: the placeholder of an omitted optional input is dropped, later inputs shift position, and in-place execution differs from normal execution' % ((flat[0].callee or '').split('::')[-1] if flat else 'a non-positional constructor'), fi.loc())
+    ctx.floor(R, 'run_in_place impls that fall back to their own run', nfb, 1)
+
     # ---- delegation (TransformInputs)
     R = 'C13.delegation'
     ti = [o for o in ops if o.short == 'TransformInputs']
